@@ -5,6 +5,7 @@ go 1.25.0
 require (
 	github.com/anishathalye/porcupine v1.3.0
 	github.com/nspcc-dev/neo-go v0.121.0
+	github.com/nspcc-dev/neo-go/pkg/interop v0.0.0-20260609115526-14bc7067ea2e
 	go.etcd.io/gofail v0.2.0
 	go.uber.org/zap v1.27.1
 )
@@ -30,7 +31,6 @@ require (
 	github.com/nspcc-dev/dbft v0.4.0 // indirect
 	github.com/nspcc-dev/go-ordered-json v0.0.0-20260302080601-ff7471f924b3 // indirect
 	github.com/nspcc-dev/hrw/v2 v2.0.4 // indirect
-	github.com/nspcc-dev/neo-go/pkg/interop v0.0.0-20260609115526-14bc7067ea2e // indirect
 	github.com/nspcc-dev/neofs-sdk-go v1.0.0-rc.21 // indirect
 	github.com/nspcc-dev/rfc6979 v0.2.4 // indirect
 	github.com/nspcc-dev/tzhash v1.8.4 // indirect
